@@ -22,6 +22,7 @@ def check(repo, tier="quick"):
         "sites = rows of level_constraints.csv) and the keys the encoder consults when choosing values; dominance of membership "
         "tests over every yielded option dictionary; order of table filtering in iter_sequence_headers."
     )
+    res.rule("C16.f", "bug patterns with zero expected instances in this property's modules: swapped same-named arguments, lower-bound guard followed by a decrement of the guarded value, presence of a dictionary entry decided by truthiness")
     res.rule("C16.a", "every level key the validator enforces is consulted somewhere in the encoder's constraint handling")
     res.rule("C16.b", "every option dictionary yielded by the header generators is dominated by membership tests of each constrained value it carries")
     res.rule("C16.e", "history independence: the functions through which the encoder decides level-constrained values keep no state between calls (no memo tables, caches or mutated module-level containers), so the decision for one configuration cannot be affected by an earlier one")
@@ -43,6 +44,10 @@ def check(repo, tier="quick"):
         res.check(k in kenc, "C16.a", "key=%s" % k, "vc2_conformance/encoder", "the validator enforces the level key %r (in %s) but the encoder never consults it: with a level table that restricts %r the encoder can emit a stream the validator rejects" % (k, fn, k), by=kenc.get(k, ""))
     rule_b(repo, res)
     rule_c(repo, res)
+    from .. import lints as _lints
+
+    _lints.rule(repo, res, "C16.f", ['encoder.sequence_header', 'encoder.pictures', 'codec_features', 'level_constraints', 'constraint_table'])
+    res.floor("C16.f", 6)
     res.floor("C16.a", 50)
     res.floor("C16.b", 5)
     from .. import globals_state
